@@ -46,6 +46,7 @@ DOCS = [
     ("A: 1\nB:", False),                                                  # unterminated, last value empty
     ("A: 1\nB: 2\n\nC: x\nD: ", False),                                  # unterminated, last value blank
     ("A: 1\n\n# free 1\n\nB: 2\n\n# free 2\n\nC: 3\n", False),          # three paragraphs, two free comments
+    ("A: 1\nB: 2\nA: 3\n# c\nA: 4\nC: 5\nA: 6\n", True),                    # four occurrences of one name (round 3)
 ]
 
 
@@ -253,9 +254,44 @@ def h_ops(params, o1: int, p1: int, f1: int, x1: bool, r1: int, q1: int, o2: int
         assume((o2 == 0) & (p2 == 0) & (f2 == 0) & (not x2) & (r2 == 0) & (q2 == 0))
 
 
+def h_chain(params, k: int, f1: int, x1: bool, r1: int, f2: int, x2: bool, r2: int, f3: int, x3: bool, r3: int, f4: int, x4: bool, r4: int):
+    """k (0..4) operations of one kind on the last paragraph, then a paragraph is appended and a field of the
+    appended paragraph is replaced: bookkeeping that drifts a little with every operation shows only after several."""
+    text, dup = DOCS[params["doc"]]
+    op = params["op"]
+    assume(0 <= k <= params["kmax"])
+    if "f1" in params:
+        assume(f1 == params["f1"])
+    doc = parse_deb822_file(split_lines(text), accept_files_with_duplicated_fields=True)
+    steps = [(f1, x1, r1), (f2, x2, r2), (f3, x3, r3), (f4, x4, r4)]
+    cur = text
+    m = M(cur)
+    pi = len(m.paras) - 1
+    for i in range(4):
+        f, x, r = steps[i]
+        if i >= k:
+            assume((f == 0) & (not x) & (r == 0))
+            continue
+        m = M(cur)
+        do_op(params, doc, m, op, pi, f, x, r, 0)
+        check(params, doc, m, "%d x %s" % (i + 1, OPN[op]), cur, False)
+        cur = doc.dump()
+    m = M(cur)
+    do_op(params, doc, m, 10, 0, 0, False, 0, 0)
+    check(params, doc, m, "%d x %s then append" % (k, OPN[op]), cur, True)
+    if k >= 3:
+        reach(params, "three-moves")
+
+
 def partitions(tier, seed):
     P = []
     q = tier == "quick"
+    for d, op, kmax in (((2, 2, 3), (0, 2, 3)) if q else
+                        [(d, op, 4) for d in (0, 2, 3, 4, 9, 14) for op in (0, 1, 2, 3)]):
+        for f1 in range(len(M(DOCS[d][0]).paras[-1])):
+            P.append(dict(name="chain/doc%d/%s/first%d" % (d, OPN[op], f1), harness="h_chain", params=dict(doc=d, op=op, kmax=kmax, f1=f1), budget=100 if q else 2400,
+                          reach=["three-moves"] if f1 == 0 else [],
+                          bounds="document %d: 0..%d operations %s (the first one on field %d, all other operands free) on the last paragraph, then append" % (d, kmax, OPN[op], f1)))
     groups = [("abs", [0, 1]), ("rel", [2, 3]), ("sort", [4]), ("set", [5, 6]), ("del", [7, 8]), ("file", [9, 10])]
     for d in range(len(DOCS)):
         for g, ops in groups:
